@@ -153,7 +153,7 @@ def _fun_src(shape: Shape, f: str, prog: Dict[str, Any], names: Dict[str, str]) 
     if shape.dpath[f]:
         lines.append("@dds.data_function(%r)" % shape.dpath[f])
     par = shape.param[f]
-    sig = {"none": "", "x": "x", "xdef": "x=7"}[par]
+    sig = {"none": "", "x": "x", "xdef": "x=%d" % (7 + prog.get("defv", {}).get(f, 0))}[par]
     ind = ""
     if f in shape.real.get("as_class", []):
         lines.append("class K_%s(object):" % f)
